@@ -335,6 +335,22 @@ Qed.
 Lemma parse_dir_spec es : parse_dir es = parse_spec (top_files es).
 Proof. apply finish_walk_spec. Qed.
 
+(* the plugin name a located source carries is a valid plugin name (30cc14e) *)
+Lemma locate_err_or_valid src exe n copy : locate src = LOk exe n copy -> valid_name n = true.
+Proof.
+  destruct src as [| |sn|f|base es]; cbn [locate]; try discriminate.
+  - destruct (pname_of sn); discriminate.
+  - destruct (pname_of (f_name f)) as [m|] eqn:Hn; [|discriminate].
+    destruct (is_exec f); [|discriminate]. intros H. injection H as _ <- _. apply (pname_of_valid _ _ Hn).
+  - rewrite parse_dir_spec. unfold parse_spec.
+    destruct (execs (top_files es)) as [|e1 [|e2 r]]; [| |discriminate].
+    + destruct (cands (top_files es)) as [|x [|y r]]; try discriminate.
+      destruct (pname_of (f_name x)) as [m|] eqn:Hn; [|discriminate].
+      intros H. injection H as _ <- _. apply (pname_of_valid _ _ Hn).
+    + destruct (pname_of (f_name e1)) as [m|] eqn:Hn; [|discriminate].
+      intros H. injection H as _ <- _. apply (pname_of_valid _ _ Hn).
+Qed.
+
 Lemma execs_in l e : In e (execs l) -> In e l /\ is_cand e = true /\ is_exec e = true.
 Proof.
   unfold execs, cands. intros H. apply filter_In in H. destruct H as [H Hx].
@@ -1119,12 +1135,150 @@ Section Theorems.
       pose proof (uninstall_step_ok tbl st name) as H. rewrite Hu in H. exact H.
   Qed.
 
+  (* ---- installations that name the place of their source (after 6dc7abe) ---- *)
+  Lemma areplace_same k d : forall st, afind k st = Some d -> areplace k d st = st.
+  Proof.
+    induction st as [|[k' d'] st IH]; cbn [afind areplace]; [discriminate|].
+    destruct (String.eqb k k') eqn:E.
+    - intros H. injection H as ->. apply str_eqb_eq in E. subst k'. reflexivity.
+    - intros H. rewrite (IH H). reflexivity.
+  Qed.
+
+  Lemma top_files_EF d : top_files (map EF d) = d.
+  Proof. induction d as [|f d IH]; cbn [map top_files]; [reflexivity|rewrite IH; reflexivity]. Qed.
+
+  Lemma after_parse_clean st p : place_clean st p = true ->
+    after_parse st p (locate (rs_src (resolve st p))) = st.
+  Proof.
+    destruct p as [src|k|k fname| |lname k fname]; cbn [after_parse resolve place_clean]; intros Hc;
+      try reflexivity.
+    destruct (afind k st) as [d|] eqn:Hd; cbn [rs_src locate]; [|reflexivity].
+    rewrite parse_dir_spec, top_files_EF. unfold parse_spec.
+    fold (cands d) in Hc. fold (execs d) in Hc.
+    destruct (execs d) as [|e1 [|e2 r]].
+    - destruct (cands d) as [|x [|y r]]; try reflexivity. discriminate.
+    - destruct (pname_of (f_name e1)); [apply areplace_same; exact Hd|reflexivity].
+    - reflexivity.
+  Qed.
+
+  Lemma install_with_g_eq loc tbl st ow : install_with_g do_install loc tbl st ow = install_with loc tbl st ow.
+  Proof. reflexivity. Qed.
+
+  (* the general form differs from the plain one only in how an accepted installation is finished *)
+  Lemma install_with_g_rel (R : state * ires -> state * ires -> Prop) doi loc tbl st ow :
+    (forall e, R (fail st e) (fail st e)) ->
+    (forall exe n copy ex nw, loc = LOk exe n copy -> R (do_install st n copy ex nw) (doi st n copy ex nw)) ->
+    R (install_with loc tbl st ow) (install_with_g doi loc tbl st ow).
+  Proof.
+    intros Hf Hd. destruct loc as [e|exe n copy]; cbn [install_with install_with_g]; [apply Hf|].
+    assert (Hd' : forall ex nw, R (do_install st n copy ex nw) (doi st n copy ex nw))
+      by (intros; eapply Hd; reflexivity).
+    repeat match goal with
+           | |- R (fail _ _) (fail _ _) => apply Hf
+           | |- R (do_install _ _ _ _ _) (doi _ _ _ _ _) => apply Hd'
+           | |- R (match ?x with _ => _ end) _ => destruct x
+           | |- R (if ?x then _ else _) _ => destruct x
+           end.
+  Qed.
+
+  Lemma home_target st p k : rs_home (resolve st p) = Some k -> rs_target (resolve st p) = Some k.
+  Proof.
+    destruct p as [src|j|j fname| |lname j fname]; cbn [resolve]; try discriminate.
+    - destruct (afind j st); cbn; [auto|discriminate].
+    - destruct (afind j st) as [d|]; [|cbn; discriminate]. destruct (find_file fname d); cbn; [auto|discriminate].
+    - destruct (afind j st) as [d|]; [|cbn; discriminate]. destruct (find_file fname d); cbn; discriminate.
+  Qed.
+
+  Lemma same_name_true o n : same_name o n = true <-> o = Some n.
+  Proof.
+    unfold same_name. destruct o as [m|]; cbn [opt_eqb]; [|split; discriminate].
+    split; [intros H; apply str_eqb_eq in H; subst; reflexivity|intros H; injection H as ->; apply str_eqb_refl].
+  Qed.
+
+  (* under [place_clean] a source that vanishes with the directory of n designates an executable in it *)
+  Lemma clean_target st p exe n copy : place_clean st p = true ->
+    locate (rs_src (resolve st p)) = LOk exe n copy ->
+    same_name (rs_target (resolve st p)) n = true -> same_name (rs_home (resolve st p)) n = true.
+  Proof.
+    destruct p as [src|j|j fname| |lname j fname]; cbn [resolve place_clean]; intros Hc Hl Ht;
+      try (cbn in Ht; discriminate).
+    - destruct (afind j st); exact Ht.
+    - destruct (afind j st) as [d|]; [|exact Ht]. destruct (find_file fname d); exact Ht.
+    - exfalso. destruct (afind j st) as [d|]; [|cbn in Ht; discriminate].
+      destruct (find_file fname d) as [f|]; [|cbn in Ht; discriminate].
+      cbn [rs_src rs_target locate f_name] in Hl, Ht.
+      destruct (pname_of lname) as [m|] eqn:Hn; [|discriminate].
+      destruct (is_exec _); [|discriminate]. injection Hl as _ Hmn _.
+      apply same_name_true in Ht. injection Ht as Hjn.
+      assert (E : Some m = Some j) by congruence. apply same_name_true in E. rewrite E in Hc. discriminate.
+  Qed.
+
+  Lemma install_at_rel tbl st p ow : place_clean st p = true ->
+    let src := rs_src (resolve st p) in
+    install_at tbl st p ow = install tbl st src ow \/
+    (exists exe n copy, locate src = LOk exe n copy /\ rs_home (resolve st p) = Some n /\
+       r_err (snd (install tbl st src ow)) = None /\ install_at tbl st p ow = fail st ESelf).
+  Proof.
+    intros Hc src. unfold install_at, install_at_g. rewrite (after_parse_clean st p Hc). fold src.
+    unfold install.
+    apply (install_with_g_rel
+             (fun a b => b = a \/ exists exe n copy, locate src = LOk exe n copy /\ rs_home (resolve st p) = Some n /\
+                                      r_err (snd a) = None /\ b = fail st ESelf)).
+    - intros e. left. reflexivity.
+    - intros exe n copy ex nw Hl. unfold do_install_at, do_install.
+      destruct (same_name (rs_home (resolve st p)) n) eqn:Hh.
+      + destruct (negb (valid_name n)) eqn:Hv.
+        * exfalso. rewrite (locate_err_or_valid src exe n copy Hl) in Hv. discriminate.
+        * right. exists exe, n, copy. apply same_name_true in Hh. auto.
+      + destruct (negb (valid_name n)); [left; reflexivity|].
+        destruct (same_name (rs_target (resolve st p)) n) eqn:Ht; [|left; reflexivity].
+        rewrite (clean_target st p exe n copy Hc Hl Ht) in Hh. discriminate.
+  Qed.
+
+  Lemma install_at_step_ok tbl st p ow :
+    source_ok (rs_src (resolve st p)) = true -> place_clean st p = true ->
+    install_at_ok tbl st p ow (snd (install_at tbl st p ow)) (view_of tbl (fst (install_at tbl st p ow))) = true.
+  Proof.
+    intros Hwf Hc. unfold install_at_ok. set (src := rs_src (resolve st p)) in *.
+    destruct (install_at_rel tbl st p ow Hc) as [->|[exe [n [copy [Hl [Hh [He ->]]]]]]]; fold src.
+    - rewrite (install_step_ok tbl st src ow Hwf). reflexivity.
+    - apply orb_true_iff. right. fold src in Hl, He.
+      destruct (install tbl st src ow) as [s0 r0] eqn:Hi. cbn [snd] in He.
+      pose proof (install_result tbl st src ow s0 r0 Hwf Hi) as H.
+      destruct (verdict tbl st src ow) as [[[n' v] ex]|] eqn:Hv.
+      2:{ destruct H as [_ [e [-> _]]]. discriminate. }
+      pose proof (verdict_candidate _ _ _ _ _ _ _ Hv) as Hcand.
+      destruct (candidate_located tbl src n' v Hwf Hcand) as [exe' [Hl' _]].
+      rewrite Hl in Hl'. injection Hl' as _ <- _.
+      cbn [fail fst snd r_err r_new r_existing view_of v_tree is_none].
+      rewrite (proj2 (same_name_true _ _) (home_target st p n Hh)), state_eqb_refl. reflexivity.
+  Qed.
+
+  Lemma steps_ok_at_run tbl : forall ops st, at_ok tbl st ops = true ->
+    steps_ok_at tbl st ops (run_ops_at tbl st ops) = true.
+  Proof.
+    induction ops as [|o ops IH]; intros st Hwf; [reflexivity|].
+    cbn [at_ok] in Hwf. apply andb_true_iff in Hwf. destruct Hwf as [Ho Hops].
+    cbn [run_ops_at]. destruct (mstep_at tbl st o) as [st' res] eqn:Hm. cbn [steps_ok_at fst] in *.
+    cbn [s_view view_of v_tree]. rewrite (IH st' Hops). rewrite andb_true_r.
+    unfold step_ok_at. cbn [s_view s_res]. rewrite view_ok_view_of. cbn [andb].
+    destruct o as [p ow|name]; cbn [mstep_at] in Hm.
+    - apply andb_true_iff in Ho. destruct Ho as [Hs Hc].
+      destruct (install_at tbl st p ow) as [s r] eqn:Hi. injection Hm as <- <-.
+      pose proof (install_at_step_ok tbl st p ow Hs Hc) as H. rewrite Hi in H. exact H.
+    - destruct (uninstall st name) as [s e] eqn:Hu. injection Hm as <- <-.
+      pose proof (uninstall_step_ok tbl st name) as H. rewrite Hu in H. exact H.
+  Qed.
+
   Theorem model_spec_ok : forall i, wf i = true -> spec_ok i (model i) = true.
   Proof.
-    intros [tbl st ops|v w] Hwf; cbn [model spec_ok].
-    - cbn [wf] in Hwf. apply andb_true_iff in Hwf. destruct Hwf as [_ Hops].
+    intros [tbl st ops|v w|tbl st ops] Hwf; cbn [model spec_ok].
+    - unfold wf in Hwf. cbn [wf_static] in Hwf. rewrite andb_true_r in Hwf.
+      apply andb_true_iff in Hwf. destruct Hwf as [_ Hops].
       cbn [view_of v_tree]. rewrite state_eqb_refl, view_ok_view_of, (steps_ok_run tbl ops st Hops). reflexivity.
     - rewrite cpv_spec. destruct (sv_valid v && sv_valid w); cbn; [apply cmp_eqb_refl|reflexivity].
+    - unfold wf in Hwf. apply andb_true_iff in Hwf. destruct Hwf as [_ Hops].
+      cbn [view_of v_tree]. rewrite state_eqb_refl, view_ok_view_of, (steps_ok_at_run tbl ops st Hops). reflexivity.
   Qed.
 End Theorems.
 
